@@ -84,10 +84,13 @@ StepReset(e) ==
 
 RECURSIVE PermSeqs(_)
 PermSeqs(S) == IF S = {} THEN {<< >>} ELSE UNION {{<<a>> \o p : p \in PermSeqs(S \ {a})} : a \in S}
-Orders == PermSeqs(Range(cl.wits) \cup (DOMAIN sc.prov \ {cl.primary}))
-\* one order for all fan-outs of the call; if that does not explain the call, one per fan-out
+\* orders over ALL provider names: the primary of the moment can be a witness by the next fan-out
+Orders == PermSeqs(DOMAIN sc.prov)
+\* the order the driver tried to force; else one order for all fan-outs of the call; else one
+\* per fan-out (three only while that stays small)
 Scheds1 == {<<p>> : p \in Orders}
-Scheds2 == {<<p, q>> : p \in Orders, q \in Orders} \cup {<<p, q, r>> : p \in Orders, q \in Orders, r \in Orders}
+Scheds2 == {<<p, q>> : p \in Orders, q \in Orders}
+           \cup (IF Cardinality(Orders) <= 6 THEN {<<p, q, r>> : p \in Orders, q \in Orders, r \in Orders} ELSE {})
 
 Known(ids) == {b \in ids : b \in DOMAIN sc.blocks}
 HidsOf(ids) == {sc.blocks[b].hid : b \in Known(ids)}
@@ -133,7 +136,8 @@ Install(e) ==
 StepNewClient(e) ==
   LET predv(s, v) == InitClient(Sc(v), cl.primary, cl.wits, cnt, root.h, root.hid, s)
       pred(s) == predv(s, FALSE)
-      ok == \/ \E s \in Scheds1 : Matches(pred(s), e) \/ Matches(predv(s, TRUE), e)
+      ok == \/ Matches(pred(<<e.sched>>), e) \/ Matches(predv(<<e.sched>>, TRUE), e)
+            \/ \E s \in Scheds1 : Matches(pred(s), e) \/ Matches(predv(s, TRUE), e)
             \/ \E s \in Scheds2 : Matches(pred(s), e) \/ Matches(predv(s, TRUE), e)
       ids == Range(e.post.store) IN
   /\ drift' = drift \cup FailIf(~ok, Drift("NewClient: no reply schedule of the specification reproduces the observed call",
@@ -154,7 +158,8 @@ StepVerify(e) ==
   LET predv(s, v) == IF e.ev = "Update" THEN UpdateCall(Sc(v), cl, cnt, e.now, s)
                      ELSE VerifyAtHeight(Sc(v), cl, cnt, e.h, e.now, s)
       pred(s) == predv(s, FALSE)
-      ok   == \/ \E s \in Scheds1 : Matches(pred(s), e) \/ Matches(predv(s, TRUE), e)
+      ok   == \/ Matches(pred(<<e.sched>>), e) \/ Matches(predv(<<e.sched>>, TRUE), e)
+              \/ \E s \in Scheds1 : Matches(pred(s), e) \/ Matches(predv(s, TRUE), e)
               \/ \E s \in Scheds2 : Matches(pred(s), e) \/ Matches(predv(s, TRUE), e)
       pre  == HidsOf(cl.store)
       ids  == Range(e.post.store)
@@ -169,7 +174,8 @@ StepVerify(e) ==
       Same(s, v) == /\ ReqAgree(PriOnly(predv(s, v).x.reqs), PriOnly(e.obs))
                     /\ predv(s, v).x.cl.primary = e.post.primary
                     /\ (predv(s, v).x.tr # << >>) = hasDet
-      P1   == {sv \in Scheds1 \X BOOLEAN : Same(sv[1], sv[2])}
+      P0   == {sv \in {<<e.sched>>} \X BOOLEAN : Same(sv[1], sv[2])}
+      P1   == IF P0 # {} THEN P0 ELSE {sv \in Scheds1 \X BOOLEAN : Same(sv[1], sv[2])}
       P    == IF P1 # {} THEN P1 ELSE {sv \in Scheds2 \X BOOLEAN : Same(sv[1], sv[2])}
       att  == IF hasDet THEN UNION {predv(sv[1], sv[2]).x.att : sv \in P} ELSE {}
       self == SelfConfirmed(sc, pre, post, obs, e.post.primary)
